@@ -138,6 +138,6 @@ def replay_core(w, prop, clause):
 def replay(f, w):
     """dispatch on the kind of witness"""
     kind = f.get('kind', 'step')
-    if kind == 'step': return replay_core(w, f['prop'], f['clause'])
+    if kind == 'step': return replay_core(w, f.get('orig_prop', f['prop']), f.get('orig_clause', f['clause']))
     mod = __import__('mirsym.vc_' + kind, fromlist=['replay'])
     return mod.replay(f, w)
